@@ -56,7 +56,8 @@ func streamCli(o *Out, r *rand.Rand, n int, thorough bool) {
 	endings := []struct{ name, src string }{
 		{"ok", ""}, {"ok", "1 + 1"}, {"ok", "nil"},
 		{"runErr", `throw "boom"`}, {"runErr", "undefinedFunction()"}, {"runErr", "1 % 0"}, {"runErr", `x = [1]; x[5]`},
-		{"runErr", `toInt()`}, {"runErr", `keys(1)`},
+		{"runErr", `toInt()`}, {"runErr", `keys(1)`}, {"runErr", `load("/nonexistent/lib.ank")`}, {"runErr", `load("/")`},
+		{"runErr", "func f() {\nload(\"/nonexistent/deep.ank\")\n}\nf()"},
 		{"exit", "os = import(\"os\")\nos.Exit(0)"}, {"exit", "os = import(\"os\")\nos.Exit(3)"},
 		{"parseErr", "x = ("}, {"parseErr", `s = "unterminated`}, {"parseErr", "if { }"}, {"parseErr", "1 +* 2"}, {"parseErr", "func("},
 	}
@@ -72,7 +73,16 @@ func streamCli(o *Out, r *rand.Rand, n int, thorough bool) {
 		end := endings[r.Intn(len(endings))]
 		supply := []string{"dashE", "file1", "file1", "file0"}[r.Intn(4)]
 		for j := 0; j < lines; j++ {
-			switch r.Intn(9) {
+			switch r.Intn(11) {
+			case 9:
+				// one very long line (an embedded blob)
+				k := 66000 + r.Intn(3000)
+				fmt.Fprintf(&sb, "blob%d = \"%s\"\nprintln(len(blob%d))\n", j, strings.Repeat("ab", k/2), j)
+				fmt.Fprintf(&want, "%d\n", k/2*2)
+			case 10:
+				// CRLF line endings, also inside a multi-line raw string whose content is observed
+				fmt.Fprintf(&sb, "crlf%d = `x\r\ny`\r\nprintln(len(crlf%d))\r\n", j, j)
+				want.WriteString("4\n")
 			case 5:
 				// the script's own top-level variables are visible to the builtins
 				fmt.Fprintf(&sb, "v%d = %d\nif defined(\"v%d\") { println(\"def\") } else { println(\"undef\") }\nprintln(defined(\"nope%d\"), defined(\"args\"))\n", j, j, j, j)
